@@ -57,8 +57,7 @@ theorem fragment_outside (res : Rat) (nch : Nat) (prog : List Node) (h : inFragm
       resCollision res prog = false := by
   simp only [inFragment, Bool.and_eq_true, Bool.not_eq_true'] at h
   obtain ⟨⟨⟨hn, _⟩, hk⟩, hs⟩ := h
-  refine ⟨?_, ?_, ?_, ?_⟩
-  · simp only [inPF22]; rw [sweepList_flag res nch prog _ hn]; rfl
+  refine ⟨hn, ?_, ?_, ?_⟩
   · simp only [inDepthClash, keyInj, List.all_eq_true] at hk ⊢
     rw [Bool.eq_false_iff]
     intro hc
@@ -76,5 +75,13 @@ theorem fragment_outside (res : Rat) (nch : Nat) (prog : List Node) (h : inFragm
     have := hk p hp q hq
     simp only [h1, h2, beq_self_eq_true, Bool.and_self, Bool.not_true, Bool.false_or, beq_iff_eq] at this
     exact h3 this
+
+/-- every builder-shaped program without repetition nodes and with faithful, separated keys is in the fragment -/
+theorem norep_in_fragment (res : Rat) (nch : Nat) (prog : List Node) (hn : hasRepList prog = false)
+    (hw : wellFormedList nch 0 prog = true) (hk : keyInj res (touchesList prog) = true)
+    (hs : separated res (touchesList prog) (plainsList prog) = true) : inFragment res nch prog = true := by
+  have : inPF22 res nch prog = false := by
+    simp only [inPF22]; rw [sweepList_flag res nch prog _ hn]; rfl
+  simp [inFragment, this, hw, hk, hs]
 
 end QP.C17.Judge
